@@ -3,7 +3,7 @@ from __future__ import annotations
 
 import warnings
 
-from .common import Slow, Suite, deadline, errname, merge
+from .common import Oracle, Slow, Suite, deadline, errname, merge
 
 GEN_UNITS = ["Handlers", "PyUnicode"]
 LEAN_TARGETS = ["PasslibVerif.Props.C04"]
@@ -154,6 +154,50 @@ def make_hash(h, rounds=None):
         kw["rounds"] = rounds
     hh = h.using(**kw).hash("pw") if kw else h.hash("pw")
     return hh
+
+
+BYTES_SCHEMES = ["ldap_salted_sha1", "ldap_md5_crypt", "ldap_sha256_crypt", "ldap_des_crypt", "md5_crypt", "sha256_crypt", "des_crypt",
+                 "pbkdf2_sha256", "ldap_pbkdf2_sha256", "ldap_md5", "phpass", "sha1_crypt", "ldap_sha1_crypt", "ldap_hex_md5", "hex_md5"]
+
+
+def bytes_parity_cases(rng, rounds):
+    """a hash handed over as bytes is the same hash: identify / needs_update / verify / verify_and_update answer as for the text
+    (yields (tag, input, ok, observed, expected)); wrapper schemes, deprecated schemes and rounds limits included"""
+    from passlib import registry
+    from passlib.context import CryptContext
+
+    hashes = {}
+    for name in BYTES_SCHEMES:
+        h = registry.get_crypt_handler(name)
+        kw = {"rounds": max(h.min_rounds, 1000 if h.rounds_cost == "linear" else h.min_rounds)} if "rounds" in h.setting_kwds else {}
+        hashes[name] = h.using(**kw).hash("pw")
+    for _ in range(rounds):
+        schemes = rng.sample(BYTES_SCHEMES, rng.randrange(2, 7))
+        kw = {"schemes": schemes}
+        if rng.random() < 0.7:
+            kw["deprecated"] = rng.choice([["auto"], rng.sample(schemes[1:], rng.randrange(0, len(schemes)))])
+        for s in schemes:
+            if "rounds" in registry.get_crypt_handler(s).setting_kwds and rng.random() < 0.4 and registry.get_crypt_handler(s).rounds_cost == "linear":
+                kw[f"{s}__min_rounds"] = rng.choice([1000, 1001, 2000])
+                kw[f"{s}__default_rounds"] = 2000
+        try:
+            c = CryptContext(**kw)
+        except Exception:  # noqa: BLE001
+            continue
+        for s in schemes:
+            h = hashes[s]
+
+            def obs(hv):
+                out = []
+                for f in (lambda: c.identify(hv), lambda: c.needs_update(hv), lambda: c.verify("pw", hv), lambda: c.verify("nope", hv),
+                          lambda: (lambda r: (r[0], r[1] is None))(c.verify_and_update("pw", hv)), lambda: (lambda r: (r[0], r[1] is None))(c.verify_and_update("nope", hv))):
+                    try:
+                        out.append(f())
+                    except Exception as e:  # noqa: BLE001
+                        out.append("err " + errname(e))
+                return out
+            a, b = obs(h), obs(h.encode("ascii"))
+            yield ("bytes-hash-parity", {"op": "bytes-hash", "kwds": kw, "hash": h}, a == b, b, a)
 
 
 def correspond(ctx):
@@ -308,7 +352,10 @@ def correspond(ctx):
             uh.rng = old
         if qs:
             s_dec.add_raw(line + " " + " ".join(qs), " | ".join(ans), "decisions")
-    return merge(s_cfg, s_dec)
+    o_b = Oracle(ctx, "bytes-hash-parity")
+    for tag, inp, ok, obs, exp in bytes_parity_cases(rng, 40 if not ctx.thorough else 600):
+        o_b.check(tag, ok, inp, obs, exp)
+    return merge(s_cfg, s_dec, o_b)
 
 
 # ------------------------------------------------------------------------------------------
@@ -319,6 +366,9 @@ def search(ctx, broken, seeds):
     from passlib.context import CryptContext
 
     rng = ctx.rng
+    for tag, inp, ok, obs, exp in bytes_parity_cases(rng, 60):
+        if not ok:
+            return {"input": inp, "observed": obs, "expected": exp, "check": tag}
     fast = ["sha256_crypt", "pbkdf2_sha256", "md5_crypt", "des_crypt", "phpass", "ldap_md5", "sha1_crypt"]
     # cost variation next to a scheme's hard limit: the context must still be able to hash, and must not flag the result
     for s in ("sha256_crypt", "sha512_crypt", "pbkdf2_sha256", "sha1_crypt"):
@@ -454,5 +504,16 @@ def replay(ctx, inp):
             if c.needs_update(h):
                 return {"fails": True, "observed": {"hash": h, "needs_update": True}}
         return {"fails": False, "observed": "200 fresh hashes made and none flagged"}
+    if inp.get("op") == "bytes-hash":
+        from passlib.context import CryptContext
+
+        c = CryptContext(**inp["kwds"])
+        h = inp["hash"]
+        try:
+            a = (c.needs_update(h), c.verify_and_update("pw", h)[0])
+            b = (c.needs_update(h.encode()), c.verify_and_update("pw", h.encode())[0])
+            return {"fails": a != b, "observed": {"text": a, "bytes": b}}
+        except Exception as e:  # noqa: BLE001
+            return {"fails": True, "observed": errname(e) + ": " + str(e)}
     r = search(ctx, [], [])
     return {"fails": r is not None, "observed": r}
